@@ -133,10 +133,10 @@ def ugrid(m, start_index=0, fill=-1, dtype="int64", names="standard", lon="pm180
 
 
 # --------------------------------------------------------------------------- MPAS
-MPAS_AXES = [("padding", ["zeros", "repeat-last", "junk"]), ("optional", ["all", "minimal"]), ("coords", ["both", "lonlat", "xyz"]), ("dual", [False, True])]
+MPAS_AXES = [("padding", ["zeros", "repeat-last", "junk"]), ("optional", ["all", "minimal"]), ("coords", ["both", "lonlat", "xyz"]), ("dual", [False, True]), ("dtype", ["int32", "int64"])]
 
 
-def mpas(m, padding="zeros", optional="all", coords="both", dual=False):
+def mpas(m, padding="zeros", optional="all", coords="both", dual=False, dtype="int32"):
     """primal: MPAS cells = faces of m, vertices = nodes of m.  dual: the *uxarray dual reading* must yield m, i.e.
     MPAS cells = nodes of m and MPAS vertices = faces of m (cellsOnVertex rows = faces of m)."""
     import xarray as xr
@@ -209,6 +209,7 @@ def mpas(m, padding="zeros", optional="all", coords="both", dual=False):
     if coords == "xyz" and dual:
         return None  # the dual reader sizes its node dimension from latCell
     ds.attrs = {"model_name": "mpas", "on_a_sphere": "YES", "sphere_radius": 6371229.0}
+    _cast_ints(ds, dtype)
     return ds, exp
 
 
@@ -348,7 +349,18 @@ def geos_cs(N=2, centers=True):
 
 
 # --------------------------------------------------------------------------- ICON (triangles only)
-def icon(m):
+ICON_AXES = [("dtype", ["int32", "int64"])]
+
+
+def _cast_ints(ds, dtype):
+    """index tables as the other integer width (in-memory sources are often int64: numpy's default)"""
+    if dtype != "int32":
+        for v in list(ds.data_vars):
+            if ds[v].dtype.kind == "i":
+                ds[v] = (ds[v].dims, np.ascontiguousarray(ds[v].values.astype(dtype)), dict(ds[v].attrs))
+
+
+def icon(m, dtype="int32"):
     import xarray as xr
 
     if {len(f) for f in m.faces} != {3}:
@@ -384,6 +396,7 @@ def icon(m):
     ds["adjacent_cell_of_edge"] = (("nc", "edge"), ef.T.copy())
     ds["edge_vertices"] = (("nc", "edge"), (np.array([sorted(k) for k in keys], dtype=np.int32) + 1).T.copy())
     ds.attrs = {"grid_file_uri": "harness", "number_of_grid_used": 0}
+    _cast_ints(ds, dtype)
     exp = _expect(m, edge_node=[frozenset(k) for k in keys], face_edge=fe, edge_face=[sorted(x for x, _ in E[k]) for k in keys], face_centres=FC, edge_centres=EC)
     return ds, exp
 
@@ -439,6 +452,8 @@ def topology(m, fill="INT_FILL", start_index=0, extra="none", lon="pm180"):
     uniform = len({len(f) for f in m.faces}) == 1
     if fill is None and not uniform:
         return None
+    if fill == 0 and start_index == 0:
+        return None  # 0 cannot be both a node index and the padding value
     fv = {"INT_FILL": INT_FILL}.get(fill, fill)
     t = m.table(fill=fv if fv is not None else 0)
     t = np.where(m.table() == INT_FILL, t, m.table() + start_index)
